@@ -19,7 +19,7 @@ from .common import chunks
 
 ID = "C18"
 RULE = (
-    "path: {-q,-r} x {-f,stdin} x {-o,stdout} x --pretty x --no-unicode-escape x --no-type-checks x --debug x 13 queries x 3 "
+    "path: {-q,-r} x {-f,stdin} x {-o,stdout} x --pretty x --no-unicode-escape x --no-type-checks x --debug x 21 queries (6 rejected at their first character) x 3 "
     "documents; pointer: {-p,-r} x {-f,stdin} x {-o,stdout} x --pretty x --no-unicode-escape x -u x --debug x 15 pointers (5 with outer blanks) x 3 "
     "documents; patch: {-f,stdin} x {-o,stdout} x --pretty x --no-unicode-escape x -u x --debug x 11 patches x 3 documents; "
     "expected outcome computed by the corresponding library call with the same options. "
@@ -41,7 +41,9 @@ DOCS = ['{"a": [1, 2, {"a": 3}], "arr": [[1], [1, 2]], "a b": "sp", "\\u00e9": "
         # JSON that the interpreter cannot decode: an integer beyond its integer/string conversion limit (a ValueError)
         "[" + "1" * 5000 + "]"]
 QUERIES = ["$.a", "$\n.a\n[0]", "$[\n'a',\n's'\n]", "$..a", "$[?@.a]", "$.arr[?length(@) == 1]", "$['\\u0061']", "$[?length(@.*) == 1]", "", "$.*", "$.nope",
-           "$[", "$[?count(1) == 1]", "$[?nosuch(@)]", "$[9007199254740992]"]
+           "$[", "$[?count(1) == 1]", "$[?nosuch(@)]", "$[9007199254740992]",
+           # queries the library rejects at their very first character (the error message shows a line and column)
+           "]", "1", "?@.a", "|", "true", " ]"]
 POINTERS = ["/a/0", "", "/arr/1/0", "/a%20b", "/a b", "/\\u00e9", "/zz", "/a/9", "a", "/s/0",
             # outer blanks: an inline expression is the library's argument as it stands; an expression file is stripped
             "/a/1 ", "/s ", "/a b ", " /a/0", "/a/1\t"]
